@@ -119,8 +119,11 @@ def replay_scene_getter(inp):
         import machupX as MX
         scene = MX.Scene({"units": inp["unit"], "scene": {"atmosphere": inp["atmos"]}})
         pos = np.array(inp["pos"], dtype=float)
+        want = np.asarray(inp["want"], dtype=float)
+        if inp.get("vectorised"):            # the getter evaluated at an array of positions (as the assembly does at all control points)
+            pos = np.array([pos, pos, pos])
+            want = np.array([want, want, want])
         got = np.asarray(getattr(scene, inp["getter"])(pos), dtype=float)
-    want = np.asarray(inp["want"], dtype=float)
     bad = not np.allclose(got, want, rtol=1e-9, atol=1e-12)
     return {"reproduced": bool(bad), "key": "Scene.%s %s" % (inp["getter"], inp.get("case", "")),
             "observed": {"got": got.tolist(), "want": want.tolist()},
@@ -445,7 +448,7 @@ def _mk_getter_finding(getter, case, build):
         atmos, pos, want = build(ob.model or {})
         if want is None:
             return None
-        return Finding("scene_getter", {"unit": "English", "atmos": atmos, "pos": pos, "getter": getter, "want": want, "case": case}, ob.label, ob.model)
+        return Finding("scene_getter", {"unit": "English", "atmos": atmos, "pos": pos, "getter": getter, "want": want, "case": case, "vectorised": "vectorised" in ob.label}, ob.label, ob.model)
     return mk
 
 
@@ -470,6 +473,8 @@ def h3(ck, tier):
         for nm, shape in (("_get_density", None), ("_get_viscosity", None), ("_get_sos", None), ("_get_wind", 3)):
             def rec(pos, _n=nm, _s=shape):
                 calls.setdefault(_n, []).append(pos)
+                if np.ndim(pos) == 1:            # a single position (not what the assembly is documented to ask for; recorded, answered like the real getters)
+                    return facade.wrap(np.array([sym("%s_one_%d" % (_n, k)) for k in range(3)], dtype=object)) if _s else sym("%s_one" % _n)
                 n = pos.shape[0]
                 return facade.wrap(np.array([[sym("%s_%d_%d" % (_n, i, k)) for k in range(3)] for i in range(n)], dtype=object)) if _s else \
                     facade.wrap(np.array([sym("%s_%d" % (_n, i)) for i in range(n)], dtype=object))
@@ -502,9 +507,10 @@ def h3(ck, tier):
         terms += [zexpr(v["w"][i][k]) == z3.Real("_get_wind_%d_%d" % (i, k)) for i in range(N) for k in range(3)]
         goal = z3.And(*terms) if structural_ok else z3.BoolVal(False)
         mk = lambda ob: Finding("sampling", {"p": [100.0, -50.0, -2000.0], "E": [10.0, 20.0, 30.0]}, ob.label, ob.model)
-        ck.add([Obligation("H3 getters sampled at p + R(q) PC for every control point, results stored per section", p.facts(), goal, meta={"finding": mk}),
-                Obligation("H3 canary", p.facts(), zexpr(v["calls"]["_get_density"][0][0][0]) == zexpr(v["want"][0][0]) + 1, canary=True)])
-        ck.sample({"harness": "H3", "N": N, "first_position_argument": str(v["calls"]["_get_density"][0][0][0])[:200]})
+        ck.add([Obligation("H3 getters sampled at p + R(q) PC for every control point, results stored per section", p.facts(), goal, meta={"finding": mk})])
+        if structural_ok:
+            ck.add([Obligation("H3 canary", p.facts(), zexpr(v["calls"]["_get_density"][0][0][0]) == zexpr(v["want"][0][0]) + 1, canary=True)])
+            ck.sample({"harness": "H3", "N": N, "first_position_argument": str(v["calls"]["_get_density"][0][0][0])[:200]})
     ck.bound(H3="one aircraft (rectangular wing, N=2 per side), arbitrary unit quaternion and position (symbolic)")
 
 
